@@ -434,6 +434,12 @@ func (a *Analyzer) buildDependencies(info *ConstructorInfo) []*Dependency {
 			dep.Type = param.ElemType
 		}
 
+		// A group field is resolved by its group alone: a name tag on the same
+		// field does not make it a keyed dependency.
+		if param.Group != "" {
+			dep.Key = nil
+		}
+
 		deps = append(deps, dep)
 	}
 
